@@ -837,3 +837,53 @@ func TestC17MacroPositions(t *testing.T) {
 }
 
 func init() { reg("C17.macropos", checkC17MacroPos) }
+
+// ---- loops over pointers to collections --------------------------------------------------------------------------
+
+type C17PtrLoopCase struct {
+	Var  string `json:"var"`
+	Form int    `json:"form"`
+}
+
+func c17PtrLoopCtx() map[string]interface{} {
+	xs, es, m, arr, ifs := []string{"a", "b"}, []string{}, map[string]int{"k": 1}, [2]int{1, 2}, []interface{}{1, "x"}
+	pxs := &xs
+	return map[string]interface{}{"pxs": pxs, "ppxs": &pxs, "pes": &es, "pm": &m, "parr": &arr, "pifs": &ifs, "pnamed": &zNamedStrSlice{"n"}}
+}
+
+// checkC17PtrLoop: whichever branch of the loop the engine takes for a pointer to a collection, a
+// failure in it (both branches fail) surfaces.
+func checkC17PtrLoop(c C17PtrLoopCase) error {
+	forms := []string{
+		"a{% for x in V %}{{ x|no_such_filter }}{% else %}{{ 'e'|no_such_filter }}{% endfor %}z",
+		"a{% for k, x in V %}{{ nofn(x) }}{% else %}{{ nofn(1) }}{% endfor %}z",
+		"a{% for x in V %}{% include 'does_not_exist' %}{% else %}{% include 'does_not_exist' %}{% endfor %}z",
+		"a{% for x in V %}{% for y in V %}{{ y|no_such_filter }}{% else %}{{ 1|no_such_filter }}{% endfor %}{% else %}{{ 2|no_such_filter }}{% endfor %}z",
+	}
+	src := strings.ReplaceAll(forms[c.Form%len(forms)], "V", c.Var)
+	r := render1(src, c17PtrLoopCtx())
+	if r.Panic != "" {
+		return fmt.Errorf("render panicked: %v; source %s", r, q(src))
+	}
+	if !r.Failed() || r.Out != "" {
+		return fmt.Errorf("%s is a %T; the body and the else branch of the loop both use a filter, function or template that does not exist, but Render returned %s with a nil error; source %s", c.Var, c17PtrLoopCtx()[c.Var], q(r.Out), q(src))
+	}
+	return nil
+}
+
+func TestC17PointerLoops(t *testing.T) {
+	r := NewRec(t, "C17", "exhaustive: loops over 7 pointers to collections (to a []string, to a pointer to it, to an empty slice, a map, an array, a []interface{}, a named slice) x 4 loop shapes whose body and else branch both fail (unknown filter, unknown function, missing include, nested loops); oracle: Render returns an error and no output; all cases non-trivial")
+	defer r.Flush()
+	r.SetExhaustive()
+	for _, v := range []string{"pxs", "ppxs", "pes", "pm", "parr", "pifs", "pnamed"} {
+		for form := 0; form < 4; form++ {
+			c := C17PtrLoopCase{Var: v, Form: form}
+			r.Case(fmt.Sprint(v, form), true, c)
+			if err := checkC17PtrLoop(c); err != nil {
+				r.FailEnum(t, "C17.ptrloop", c, err)
+			}
+		}
+	}
+}
+
+func init() { reg("C17.ptrloop", checkC17PtrLoop) }
